@@ -236,6 +236,9 @@ def instances(tier, seed):
         [({"0": "Z"}, 1), ({"0": "X", "1": "Y"}, 0.5), ({"0": "Y"}, -0.75)],
         [({"0": "X"}, 0.5), ({"0": "Z", "1": "Z"}, 0.5), ({"0": "X"}, 0.5)],
         [({}, 0.5), ({"1": "Z"}, 1)],
+        # the same string listed twice with DIFFERENT coefficients, a non-commuting term in between
+        [({"0": "X"}, 0.5), ({"0": "Z"}, 1), ({"0": "X"}, -0.75)],
+        [({"0": "Z", "1": "Z"}, 1), ({"0": "X"}, 0.5), ({"0": "Z", "1": "Z"}, 0.5), ({"0": "X"}, 1)],
         [({"0": "Y", "2": "X"}, 1), ({"1": "Z"}, 0.5)],
         [({"0": "X", "1": "Y", "2": "Z"}, 0.5), ({"0": "Z"}, -0.75)],
         [({}, 2)],
@@ -252,6 +255,7 @@ def instances(tier, seed):
         ([({"0": "X"}, 0.5), ({"0": "Z"}, 1), ({}, -0.75)], (1,)),
         ([({}, 0.5), ({}, 1), ({"0": "Y"}, 1)], (1,)),
         ([({"0": "X"}, 0.5), ({"0": "Z"}, 1), ({"0": "X"}, 0.5)], (1, 2)),
+        ([({"0": "X"}, 0.5), ({"0": "Z"}, 1), ({"0": "X"}, -0.75)], (1,)),
         ([({"0": "X"}, 0.5), ({"0": "Z", "1": "Z"}, -0.75)], (1, 2) if tier == "thorough" else (1,)),
         ([({"0": "Z", "1": "X"}, 0.5), ({"1": "Y"}, 1), ({"0": "X"}, -0.75)], (1, 2) if tier == "thorough" else ()),
     ]
